@@ -143,6 +143,7 @@ class BrokerState:
                     if waiter.resolved_event
                     else None,
                     timed_out=waiter.timed_out,
+                    recovery_counts=dict(waiter.recovery_counts),
                 )
                 for waiter in worker_state.collected_waiters
             ]
@@ -234,6 +235,7 @@ class BrokerState:
                         if waiter_data.resolved_event
                         else None,
                         timed_out=waiter_data.timed_out,
+                        recovery_counts=dict(waiter_data.recovery_counts),
                     )
                 )
 
